@@ -220,8 +220,13 @@ int vnacal_new_set_m_error(vnacal_new_t *vnp,
 
 	if (_vnacommon_spline_calc(frequencies - 1, frequency_vector,
 		    sigma_nf_vector, c_vector) == -1) {
-	    _vnacal_error(vcp, VNAERR_SYSTEM, "malloc: %s",
-		    strerror(errno));
+	    if (errno == EINVAL) {
+		_vnacal_error(vcp, VNAERR_USAGE, "vnacal_new_set_m_error: "
+			"frequencies must be ascending");
+	    } else {
+		_vnacal_error(vcp, VNAERR_SYSTEM, "malloc: %s",
+			strerror(errno));
+	    }
 	    return -1;
 	}
 	for (int findex = 0; findex < vnp->vn_frequencies; ++findex) {
@@ -233,8 +238,14 @@ int vnacal_new_set_m_error(vnacal_new_t *vnp,
 	if (sigma_tr_vector != NULL) {
 	    if (_vnacommon_spline_calc(frequencies - 1, frequency_vector,
 			sigma_tr_vector, c_vector) == -1) {
-		_vnacal_error(vcp, VNAERR_SYSTEM, "malloc: %s",
-			strerror(errno));
+		if (errno == EINVAL) {
+		    _vnacal_error(vcp, VNAERR_USAGE,
+			    "vnacal_new_set_m_error: "
+			    "frequencies must be ascending");
+		} else {
+		    _vnacal_error(vcp, VNAERR_SYSTEM, "malloc: %s",
+			    strerror(errno));
+		}
 		return -1;
 	    }
 	    for (int findex = 0; findex < vnp->vn_frequencies; ++findex) {
